@@ -151,9 +151,14 @@ PROPS = {
         level="proof",
         level_text="(cfloat clauses) Lean model of convert_ieee754 (field extraction, guard/round/sticky, subnormal target, overflow, "
                    "post-processing) and convert_signed/unsigned_integer + round<>; every conversion result is judged by IeeeNearest on the "
-                   "exact value of the source; theorems: special sources, exactness of representable integers; full statements as Prop defs",
-        level_note="trusted: as C02; the defects found (integer round<> carry and sticky gap, no range check for integers, unrecognised NaN "
-                   "payloads, subnormal IEEE sources) are KNOWN-FINDING classes",
+                   "exact value of the source; theorems: special sources (every NaN payload, infinities, zeros), normal sources into the "
+                   "normal range; full statements as Prop defs",
+        level_note="trusted: as C02; repaired in /repo and proved / checked in full since: the integer round<> carry and sticky gap, "
+                   "NaN sources with an arbitrary payload (C03_cfloat_from_ieee_nan: every NaN source gives a NaN, all configurations); "
+                   "integer sources inside the range are now proved correctly rounded (C03_cfloat_from_int_partial, side condition "
+                   "C03_cfloat_from_int_inRange); still KNOWN-FINDING classes: no range check in the integer routines (the repair was "
+                   "withdrawn: static/cfloat/math/fractional.cpp depends on the old conversion), integer 1 into es = 1 configurations, "
+                   "subnormal IEEE sources, saturating+supernormal maxpos",
         explanation="cfloat from double/float/integers: sources generated from the target (each value, midpoints, 1 ulp around), specials, random patterns",
         assumptions=["the compiled code behaves like the model on inputs that were not explored"],
         trusted=CFLOAT_TRUSTED,
@@ -165,7 +170,8 @@ PROPS = {
         level="proof",
         level_text="(cfloat clauses) Lean model of to_native (subnormal_exponent table regenerated from source) and the integer casts; "
                    "read-back is judged against the exact value of the encoding, the round trip against the original encoding",
-        level_note="trusted: as C02; to_int through float for wide fractions and the bfloat/float-subnormal round trip are KNOWN-FINDING classes",
+        level_note="trusted: as C02; to_int() went through float (repaired in /repo: it reads back through double like to_long_long, no class "
+                   "left); the bfloat/float-subnormal round trip is a KNOWN-FINDING class",
         explanation="cfloat to double/float/int/long long and round trip: every encoding of the small configurations, structured encodings of the large ones",
         assumptions=["the compiled code behaves like the model on inputs that were not explored"],
         trusted=CFLOAT_TRUSTED,
@@ -177,8 +183,13 @@ PROPS = {
         level="proof",
         level_text="(cfloat clauses) Lean model of == < (subtraction based with subnormals, field compare without) ++ -- (single- and "
                    "multi-block paths) maxpos/minpos/... and numeric_limits; judged against the order of exactly decoded values",
-        level_note="trusted: as C02; D3 (bitwise ==) was repaired by d3ba933 and == is now proved to be value equality (C06_cfloat_eq); D6 (bit above nbits), ++ on -0, ++ on maxpos without supernormals, zero aliases and the "
-                   "5-block isminnegencoding are KNOWN-FINDING classes with counterexample theorems",
+        level_note="trusted: as C02; D3 (bitwise ==: +0 != -0 and the zero aliases differ) is a KNOWN-FINDING class again -- the repair d3ba933 was "
+                   "withdrawn because static/cfloat/logic/logic.cpp uses bit-pattern equality as its reference; == is proved to be value "
+                   "equality outside that class (C06_cfloat_eq_partial), with C06_cfloat_eq_counterexample / C06_cfloat_eq_signed_zero inside it; D6 (bit above "
+                   "nbits after --), ++/-- on -0 and on the zero aliases and the 5-block isminnegencoding were repaired in /repo: "
+                   "C06_cfloat_step_canonical (++/-- never leave the nbits field, every configuration and operand) and C06_cfloat_step_zero "
+                   "(every encoding of zero steps to minpos / minneg) are proved; ++ on maxpos without supernormals stays a KNOWN-FINDING "
+                   "class (operator++ cycles through the encodings by design: the library's own increment test expects the NaN encodings)",
         explanation="cfloat comparisons (all six operators per pair), ++/-- on every encoding, extremes and numeric_limits members",
         assumptions=["the compiled code behaves like the model on inputs that were not explored"],
         trusted=CFLOAT_TRUSTED,
